@@ -43,6 +43,15 @@ ARG_BY_NAME = {
 }
 
 
+# optional parameters that select what is read: every value of these small domains is tried too
+OPTIONAL_DOMAINS = {
+    "coord": ["A1", "B1:C2", "B1:B1", "C1:D2", "B2", "D1:E1", (1, 0, 2, 1), (0, 1, 3, 1)],
+    "start": [0, 1, 2], "end": [0, 1, 2], "cell_type": ["all", "float", "string"], "flat": [True], "complete": [False, True],
+    "get_type": [True], "aggressive": [True], "keep_repeated": [False], "position": [0, 1, -1], "content": ["a"], "style": ["Standard"],
+    "family": ["paragraph", "table-cell"], "automatic": [True], "formatted": [True], "pretty": [True], "with_ns": [True], "full": [True],
+}
+
+
 def snapshot(doc):
     parts = getattr(doc, "_Document__xmlparts")
     snap = {}
@@ -120,6 +129,10 @@ def entry_points(obj):
                 ok = False
         if ok:
             out.append(("call", name, kwargs))
+            for pn, p in sig.parameters.items():
+                if p.default is not inspect._empty and pn in OPTIONAL_DOMAINS:
+                    for v in OPTIONAL_DOMAINS[pn]:
+                        out.append(("call", name, {**kwargs, pn: v}))
     return out
 
 
@@ -245,7 +258,7 @@ def work(seed):
         if obj is None:
             continue
         for kind, name, kwargs in entry_points(obj):
-            eps.add((label.split(".")[-1] if label.startswith("Document.") else label, name))
+            eps.add((label.split(".")[-1] if label.startswith("Document.") else label, name, tuple(sorted((k, repr(v)) for k, v in (kwargs or {}).items()))))
             results = []
             changed = None
             for attempt in (0, 1):
